@@ -24,10 +24,11 @@ type Scenario struct {
 	Policy  simrt.Policy `json:"policy"`
 	MapBase string       `json:"map_base,omitempty"`
 	ChSeed  uint64       `json:"chooser_seed"`
-	Phase2  *Phase2Spec  `json:"phase2,omitempty"` // single graph only: after a clean first Run, extend the graph and Run it again
-	Phase3  *Phase2Spec  `json:"phase3,omitempty"` // ... and once more after a clean second Run
-	Family  string       `json:"family,omitempty"` // graph shape family / sweep tag (informational)
-	Mode    string       `json:"mode,omitempty"`   // canonical | permuted | wild
+	Phase2  *Phase2Spec  `json:"phase2,omitempty"`    // single graph only: after a clean first Run, extend the graph and Run it again
+	Phase3  *Phase2Spec  `json:"phase3,omitempty"`    // ... and once more after a clean second Run
+	Again   bool         `json:"run_again,omitempty"` // single graph, no cancellation: call Run once more on the same graph after the last Run, whatever it returned
+	Family  string       `json:"family,omitempty"`    // graph shape family / sweep tag (informational)
+	Mode    string       `json:"mode,omitempty"`      // canonical | permuted | wild
 }
 
 // Phase2Spec: more construction calls and possibly a new limit, applied after the first Run
@@ -51,11 +52,14 @@ func (sc *Scenario) ExtraPhases() []*Phase2Spec {
 
 type TaskSpec struct {
 	Attempts []AttemptSpec `json:"attempts"` // attempt k uses Attempts[min(k, len-1)]
+	// G1 (two graphs only): the behaviour of this task when it runs in graph g1, if it differs
+	// from its behaviour in g0 (one shared *Task, different outcomes per graph).
+	G1 []AttemptSpec `json:"attempts_in_g1,omitempty"`
 }
 
 type AttemptSpec struct {
 	Dur    int    `json:"dur"`              // simulated duration in poll ticks
-	Res    string `json:"res"`              // ok | err | skip | skipw
+	Res    string `json:"res"`              // ok | err | skip | skipw | errs0 | errs1 (the task returns a *dag.Errors value: empty / with one entry)
 	Chunks int    `json:"chunks,omitempty"` // output chunks written when buffering is on
 	Big    bool   `json:"big,omitempty"`    // the first chunk carries 70 KiB of padding (more than any sane internal buffer limit)
 	Cancel string `json:"cancel,omitempty"` // "", entry, exit: call cancel() there
@@ -525,6 +529,9 @@ func genAttempts(r *simrt.RNG, retries int, faulty bool, faultP int, buffer bool
 		a := AttemptSpec{Res: "ok", Dur: []int{0, 1, 1, 2, 5, 40}[r.Intn(6)]}
 		if faulty && r.Intn(100) < faultP {
 			a.Res = []string{"err", "err", "err", "skip", "skipw"}[r.Intn(5)]
+			if r.Intn(12) == 0 {
+				a.Res = []string{"errs0", "errs1"}[r.Intn(2)]
+			}
 		}
 		if buffer {
 			a.Chunks = []int{0, 1, 2, 3, 5}[r.Intn(5)]
@@ -729,6 +736,18 @@ func Generate(seed uint64, o GenOpts) *Scenario {
 		sc.Phase2 = genPhase()
 		if r.Intn(100) < 40 && sc.N < 14 {
 			sc.Phase3 = genPhase()
+		}
+	}
+	if sc.Graphs == 1 && sc.Cancel.Kind == "none" && r.Intn(100) < 15 {
+		sc.Again = true
+	}
+	// Two graphs: a shared task may behave differently in g1 (different outcome, duration)
+	if sc.Graphs == 2 && r.Intn(100) < 35 {
+		for i := range sc.Tasks {
+			if r.Intn(3) == 0 {
+				sc.Tasks[i].G1 = genAttempts(r, len(sc.Tasks[i].Attempts)-2, true, 40, sc.Buffer, false)
+				sc.Tasks[i].G1 = append(sc.Tasks[i].G1, AttemptSpec{Res: "err", Dur: 1})
+			}
 		}
 	}
 	// Two graphs: sometimes one id is represented by two distinct *Task objects (same ID and
